@@ -148,7 +148,13 @@ def decide_and_report(M, tier, seed, results, dead, nshards, wall_s):
             lines.append(f"KNOWN-FINDING: property={pid} {e['what']} [key={m}; seen {mech_counts[m]}x this run]")
     replay_paths = []
     seen_mech = set()
-    os.makedirs(os.path.join(VERIF_ROOT, "replays", pid), exist_ok=True)
+    rdir = os.path.join(VERIF_ROOT, "replays", pid)
+    os.makedirs(rdir, exist_ok=True)
+    for fn in os.listdir(rdir):      # replays belong to one run
+        try:
+            os.remove(os.path.join(rdir, fn))
+        except OSError:
+            pass
     for v, unknown in real:
         key = tuple(unknown)
         if key in seen_mech and len(replay_paths) >= 5:
